@@ -94,3 +94,50 @@ Theorem C07_launcher_source_is_model :
      NoDup run /\ (forall x y, In (x, y) run <-> (x < X /\ y < Y))).
 Proof. exact KV.Proofs.LaunchSrcProofs.launcher_source_is_model. Qed.
 Print Assumptions C07_launcher_source_is_model.
+
+(** ---- source tie of the scheduler: stem table and level / reference-count pass of sim.SimOps.__init__, translated from the CURRENT
+    source (translate/gen_simops.py -> Gen/SimOpsSrc.v, sections stems_src / levels_src), equal the hand model (build_stems, levelize)
+    on which the schedule theorems above are stated.  Side conditions = the array accesses stay in range (outside them numpy raises
+    IndexError where the model's list update is silent); [op_ok] is decidable (op_ok_b) and evaluated per generated circuit. *)
+From KV Require Import Model.SimOpsSrcLib Gen.SimOpsSrc.
+From KV Require Proofs.SimOpsSrcProofs Proofs.SimOpsSrcLevels.
+Theorem C07_simops_stems_source_is_model : forall c strip,
+  (forall n l, In (Some l) (n_outs (get_node c n)) -> l < KV.Proofs.SimOpsSrcLevels.src_len c) ->
+  bind (idx_src c) (fun '(sl, z, t, t2, ppi, ppo, len) =>
+        stems_src c sl z t t2 ppi ppo len strip (S (List.length (c_nodes c))))
+  = build_stems c strip (KV.Proofs.SimOpsSrcLevels.src_len c).
+Proof. exact KV.Proofs.SimOpsSrcLevels.stems_source_is_model. Qed.
+
+Theorem C07_simops_levels_source_is_model : forall c rows stems,
+  List.length stems = KV.Proofs.SimOpsSrcLevels.src_len c ->
+  Forall (KV.Proofs.SimOpsSrcLevels.op_ok (KV.Proofs.SimOpsSrcLevels.src_len c) stems) (map sop_of_row rows) ->
+  let ls := levelize stems (map sop_of_row rows) (KV.Proofs.SimOpsSrcLevels.src_len c) in
+  bind (idx_src c) (fun '(sl, z, t, t2, ppi, ppo, len) => levels_src c sl z t t2 ppi ppo len rows stems)
+  = Some (ls_ref ls, rev (ls_starts ls), tl (rev (ls_starts ls)) ++ [List.length rows]).
+Proof. exact KV.Proofs.SimOpsSrcLevels.levels_source_is_model. Qed.
+
+Theorem C07_simops_op_ok_checkable : forall len stems o,
+  KV.Proofs.SimOpsSrcLevels.op_ok_b len stems o = true -> KV.Proofs.SimOpsSrcLevels.op_ok len stems o.
+Proof. exact KV.Proofs.SimOpsSrcLevels.op_ok_b_sound. Qed.
+
+(** the hypotheses are satisfiable and the translated passes run: both fork options on a netlist with a fork, a port and a flip-flop *)
+Theorem C07_simops_levels_source_nonvacuous :
+  forall strip, KV.Proofs.SimOpsSrcLevels.levels_example_ok strip = true.
+Proof. exact KV.Proofs.SimOpsSrcLevels.levels_source_example. Qed.
+
+(** ... and for EVERY well-formed netlist without range side conditions (Proofs/SimOpsSrcDomain.v derives them from wf_netlist) *)
+From KV Require Proofs.SimOpsSrcDomain.
+Theorem C07_simops_stems_source_is_model_wf : forall c strip, wf_netlist c ->
+  bind (idx_src c) (fun '(sl, z, t, t2, ppi, ppo, len) =>
+        stems_src c sl z t t2 ppi ppo len strip (S (List.length (c_nodes c))))
+  = build_stems c strip (KV.Proofs.SimOpsSrcLevels.src_len c).
+Proof. exact KV.Proofs.SimOpsSrcDomain.stems_source_is_model_wf. Qed.
+
+Theorem C07_simops_levels_source_is_model_wf : forall c given strip stems, wf_netlist c ->
+  build_stems c strip (KV.Proofs.SimOpsSrcLevels.src_len c) = Some stems ->
+  let ops := build_ops c strip in
+  let rows := map (row_of_sop (a_ctrl_norm given (List.length (c_lines c) + 3))) ops in
+  let ls := levelize stems ops (KV.Proofs.SimOpsSrcLevels.src_len c) in
+  bind (idx_src c) (fun '(sl, z, t, t2, ppi, ppo, len) => levels_src c sl z t t2 ppi ppo len rows stems)
+  = Some (ls_ref ls, rev (ls_starts ls), tl (rev (ls_starts ls)) ++ [List.length ops]).
+Proof. exact KV.Proofs.SimOpsSrcDomain.levels_source_is_model_wf. Qed.
